@@ -1,5 +1,5 @@
 """C16 - cutting along singularities yields a disk with faces in bijection (SingularityCutter)."""
-import math, io, os, contextlib
+import math, io, os, copy, contextlib
 from collections import defaultdict
 import numpy as np
 from hypothesis import strategies as st
@@ -25,11 +25,12 @@ RULE = ("Connected oriented triangulated surfaces built by the harness: grids, c
         "cut_graph, cut_adj, ref_vertex are read in a drawn order followed by 0-4 re-reads, every read of one result must agree and "
         "the oracles use the last values; the singularities argument (list / tuple / int64 array / vertex attribute) and the "
         "detector's sets must be unchanged afterwards; inputs uniformly scaled by 1e-6..1e6 and/or translated by 1e3 / 1e6 times their extent; faces given as lists / tuples / numpy rows; the library switches config.sort_neighborhoods and config.display_duplicate_attribute_warning are drawn per case. "
-        "Sub-check cut_twice cuts the same mesh object a second time with an independent cutter "
+        "1 case in 5 has 1-3 (or 2 x genus) vertices that no face uses, at the first / a middle / the last id; 1 in 3 reads the results from copy.copy / copy.deepcopy of the cutter. Sub-check cut_twice (half of its cases start and run both cutters before any result of either is read) cuts the same mesh object a second time with an independent cutter "
         "(other / same / subset / empty singularity set, features on or off in either order, detector reused or re-run), applies "
         "every oracle to the second result too and checks that the input mesh's vertices and faces are unchanged. "
         "non-trivial = genus>0 or >=2 distinct singularities or >=2 border loops; distinct = distinct realised case.")
-ASSUMPTIONS = ["input is one connected oriented manifold triangulated surface with a simple 1-skeleton, all vertices used",
+ASSUMPTIONS = ["input is one connected oriented manifold triangulated surface with a simple 1-skeleton; the vertex container may hold "
+               "vertices that no face uses (never singular; 'onto' means onto the vertices used by faces)",
                "singular vertices are pairwise distinct valid vertex indices",
                "feature detection itself (which edges are features) is C15's subject; here only its effect on the cutter's "
                "guarantees is observed; inputs with a (near) zero-area triangle are cut without a feature detector"]
@@ -429,6 +430,7 @@ def cut_case(draw, big=False, twice=False):
             # library-wide switches (mouette.config), set before the mesh is built
             "config": {"sort_neighborhoods": draw(st.integers(0, 3)) > 0,
                        "display_duplicate_attribute_warning": draw(st.integers(0, 2 if twice else 5)) == 0}}
+    case["clone"] = draw(st.sampled_from(["no", "no", "no", "no", "copy", "deepcopy"]))
     if twice:
         # a second, independent cutter on the very same mesh object
         how = draw(st.sampled_from(["other", "other", "same", "subset", "empty"]))
@@ -455,8 +457,28 @@ def cut_case(draw, big=False, twice=False):
             # mesh already cut WITH features reuses the 'singularity_tree' edge flags of the first cut. Not asserted until fixed.
             f2 = "none"
         case["second"] = {"singus": [int(x) for x in S2], "features": f2, "how": how,
+                          "interleaved": draw(st.sampled_from(["no", "first-read-first", "second-read-first", "no"])),
                           "reuse_detector": draw(st.booleans()), "verbose": draw(st.booleans()),
                           "reads": draw(read_order())}
+    # vertices that no face uses (first id, a middle id, the last id); they are never singular. On a closed surface of genus g
+    # the count is mostly 2g, so that #vertices - #edges + #faces of the containers equals 2 although the surface is no sphere
+    if draw(st.integers(0, 4)) == 0:
+        rg = SurfRef(len(V), F)
+        g2 = 2 - rg.euler() - len(rg.border_loops())
+        k = g2 if (g2 > 0 and draw(st.integers(0, 3)) > 0) else draw(st.integers(1, 3))
+        A = np.array(V, dtype=float)
+        lo, hi = A.min(axis=0), A.max(axis=0)
+        for t in range(k):
+            pos = draw(st.sampled_from(["first", "middle", "last"]))
+            at = 0 if pos == "first" else len(case["V"]) if pos == "last" else len(case["V"]) // 2
+            shift = lambda v: v + 1 if v >= at else v
+            case["V"] = case["V"][:at] + [(lo + (hi - lo) * np.array([0.3, 0.6, 0.9]) * (t + 1) / (k + 1)).tolist()] + case["V"][at:]
+            case["F"] = [[shift(v) for v in f] for f in case["F"]]
+            case["singus"] = [shift(v) for v in case["singus"]]
+            case["hard"] = [[shift(v) for v in e] for e in case["hard"]]
+            if "second" in case:
+                case["second"]["singus"] = [shift(v) for v in case["second"]["singus"]]
+        case["tags"] = case["tags"] + [f"unused-vertices={k}"]
     return case
 
 
@@ -513,8 +535,11 @@ def evaluate(V, F, singus, outV, outF, ref_vertex, cut_keys, scale):
         badc = [(f, i, outF[f][i], ref_vertex[outF[f][i]], F[f][i]) for f in range(nF) for i in range(3)
                 if ref_vertex[outF[f][i]] != F[f][i]]
         chk("ref:consistent", not badc, f"(face, corner, out vertex, ref, input vertex) mismatches: {badc[:4]}")
-        miss = sorted(set(range(nV)) - set(ref_vertex.values()))
-        chk("ref:onto", not miss, f"input vertices without a copy in the cut mesh: {miss[:6]}")
+        used_in = set(v for f in F for v in f)
+        miss = sorted(used_in - set(ref_vertex.values()))
+        chk("ref:onto", not miss, f"input vertices (used by a face) without a copy in the cut mesh: {miss[:6]}")
+        extra = sorted(set(ref_vertex.values()) - used_in)
+        chk("ref:values", not extra, f"ref_vertex points to vertices that no input face uses / that do not exist: {extra[:6]}")
     else:
         ok_ref = False
     used = set(v for t in outF for v in t)
@@ -634,19 +659,8 @@ def _snapshot(M, name, val):
     raise HarnessError("unknown result " + name)
 
 
-def cut_and_check(ctx, M, m, V, F, S, feat, fd, sing, pre, info, verbose=False, reads=None):
-    """one cutter on mesh object m; the result attributes are read in the order `reads` (with re-reads); every oracle is
-    applied to the values seen LAST, and every read of one attribute must give the same value. Signatures prefixed with
-    `pre`. Returns the cutter or None."""
-    reads = list(reads or RESULTS)
-    for r in RESULTS:
-        if r not in reads:
-            reads.append(r)
-    if "ref_vertex" not in reads[reads.index("output_mesh"):]:
-        reads.append("ref_vertex")           # the map is filled when the cut mesh is built: read it (again) afterwards
-    rin = SurfRef(len(V), F)
-    A = np.array(V, dtype=float)
-    scale = float(np.abs(A).max()) or 1.0
+def start_cut(ctx, M, m, fd, sing, pre, verbose=False):
+    """builds a cutter on mesh object m and runs it (stdout captured). Returns the state for finish_cut, or None."""
     # arguments are snapshotted: the cutter may not change them
     if isinstance(sing, (list, tuple, np.ndarray)):
         sing_before = [int(x) for x in sing]
@@ -664,6 +678,36 @@ def cut_and_check(ctx, M, m, V, F, S, feat, fd, sing, pre, info, verbose=False, 
         ctx.check("SingularityCutter" in sink.getvalue(), pre + "verbose:silent", "verbose=True but run() printed nothing")
     else:
         ctx.check(sink.getvalue() == "", pre + "verbose:not-silent", f"verbose=False but run() printed {sink.getvalue()[:120]!r}")
+    return {"cutter": cutter, "sing_before": sing_before, "fd_before": fd_before, "verbose": verbose}
+
+
+def cut_and_check(ctx, M, m, V, F, S, feat, fd, sing, pre, info, verbose=False, reads=None, clone="no"):
+    st_ = start_cut(ctx, M, m, fd, sing, pre, verbose=verbose)
+    if st_ is None:
+        return None
+    return finish_cut(ctx, M, m, V, F, S, feat, fd, sing, pre, info, st_, reads=reads, clone=clone)
+
+
+def finish_cut(ctx, M, m, V, F, S, feat, fd, sing, pre, info, state, reads=None, clone="no"):
+    """reads the result attributes of a cutter that has run, in the order `reads` (with re-reads); every oracle is applied to
+    the values seen LAST, and every read of one attribute must give the same value. Signatures prefixed with `pre`.
+    clone = "copy" / "deepcopy": the results are read from copy.copy / copy.deepcopy of the cutter made after run().
+    Returns the cutter or None."""
+    cutter, sing_before, fd_before, verbose = state["cutter"], state["sing_before"], state["fd_before"], state["verbose"]
+    original = cutter
+    if clone in ("copy", "deepcopy"):
+        okc, cutter = ctx.call(pre + "cutter:" + clone, getattr(copy, clone), cutter)
+        if not okc:
+            return None
+    reads = list(reads or RESULTS)
+    for r in RESULTS:
+        if r not in reads:
+            reads.append(r)
+    if "ref_vertex" not in reads[reads.index("output_mesh"):]:
+        reads.append("ref_vertex")           # the map is filled when the cut mesh is built: read it (again) afterwards
+    rin = SurfRef(len(V), F)
+    A = np.array(V, dtype=float)
+    scale = float(np.abs(A).max()) or 1.0
 
     seen = {r: [] for r in RESULTS}          # attribute -> list of (position in the read sequence, snapshot)
     built = False                            # ref_vertex is filled when the cut mesh is built, i.e. at the first output_mesh read
@@ -740,7 +784,7 @@ def cut_and_check(ctx, M, m, V, F, S, feat, fd, sing, pre, info, verbose=False, 
     if fd is not None:
         ctx.check((set(fd.feature_edges), set(fd.feature_vertices)) == fd_before, pre + "argument-changed:features",
                   "the feature detector's feature_edges / feature_vertices changed during the cut")
-    return cutter
+    return original
 
 
 def input_unchanged(ctx, m, V, F, sig, when):
@@ -778,6 +822,11 @@ def fn(case, ctx):
         ctx.label("tie-trap")
     if "base=crease-tie" in case["tags"]:
         ctx.label("crease-tie")
+    nun = len(V) - len(set(v for f in F for v in f))
+    if nun:
+        ctx.label("unused-vertices")
+        if nloops == 0 and genus > 0 and nun == 2 * genus:
+            ctx.label("unused-vertices:container-euler-is-2-on-genus>0")
     # coincident positions (measured on the realised case)
     A = np.array(V, dtype=float)
     if len(set(map(tuple, A.tolist()))) < len(V):
@@ -828,13 +877,20 @@ def fn(case, ctx):
               "re-reads" if len(reads) > len(RESULTS) else "no-re-reads")
     sc = [t for t in case["tags"] if t.startswith("scale=")]
     ctx.label(sc[0] if sc else "scale=1")
-    cutter = cut_and_check(ctx, M, m, V, F, S, feat, fd, sing, "", info, verbose=verbose, reads=reads)
-    if cutter is None:
-        return
-    if fd is not None and cutter.has_features:
-        ctx.label("feature-path-taken")
-
+    clone = case.get("clone", "no")
+    ctx.label("results-read-from=" + {"no": "the cutter", "copy": "copy.copy(cutter)", "deepcopy": "copy.deepcopy(cutter)"}[clone])
     sec = case.get("second")
+    inter = (sec or {}).get("interleaved", "no")          # "no" | "first-read-first" | "second-read-first"
+    st1 = start_cut(ctx, M, m, fd, sing, "", verbose=verbose)
+    if st1 is None:
+        return
+    first_args = (ctx, M, m, V, F, S, feat, fd, sing, "", info + (" (a second cutter ran on the same mesh before these results were read)" if inter != "no" else ""), st1)
+    if sec is None or inter == "no":
+        cutter = finish_cut(*first_args, reads=reads, clone=clone)
+        if cutter is None:
+            return
+        if fd is not None and cutter.has_features:
+            ctx.label("feature-path-taken")
     if sec is None:
         return
     # ---- history: the same mesh object is cut again by an independent cutter
@@ -847,17 +903,31 @@ def fn(case, ctx):
         ok, fd2 = make_detector(ctx, M, m, f2, "second:", verbose=bool(case.get("detector_verbose")))
         if not ok:
             return
-    ctx.label("second:how=" + sec["how"], f"second:features {feat}->{f2}")
+    ctx.label("second:how=" + sec["how"], f"second:features {feat}->{f2}", "second:interleaved=" + inter)
     # the same argument object is handed over again when the set is the same and it is a plain sequence
     sing2 = sing if (sec["how"] == "same" and form in ("list", "tuple", "numpy") and S2 == S) else list(S2)
     if sing2 is sing:
         ctx.label("second:same-argument-object")
     ctx.label("second:verbose " + ("on" if verbose else "off") + "->" + ("on" if sec.get("verbose") else "off"))
-    c2 = cut_and_check(ctx, M, m, V, F, S2, f2, fd2, sing2, "second:",
-                       info + f" (second cut of the same mesh object; first cut: singularities {S[:12]}, features={feat})",
-                       verbose=bool(sec.get("verbose")), reads=sec.get("reads") or list(RESULTS))
-    if c2 is None:
+    info2 = info + f" (second cutter on the same mesh object; first cutter: singularities {S[:12]}, features={feat}; interleaved={inter})"
+    st2 = start_cut(ctx, M, m, fd2, sing2, "second:", verbose=bool(sec.get("verbose")))
+    if st2 is None:
         return
+    second_args = (ctx, M, m, V, F, S2, f2, fd2, sing2, "second:", info2, st2)
+    reads2 = sec.get("reads") or list(RESULTS)
+    if inter == "no":
+        c2 = finish_cut(*second_args, reads=reads2, clone=clone)
+    elif inter == "first-read-first":
+        # both cutters have run before any lazily built result is read
+        cutter = finish_cut(*first_args, reads=reads, clone=clone)
+        c2 = finish_cut(*second_args, reads=reads2, clone=clone) if cutter is not None else None
+    else:
+        c2 = finish_cut(*second_args, reads=reads2, clone=clone)
+        cutter = finish_cut(*first_args, reads=reads, clone=clone) if c2 is not None else None
+    if c2 is None or cutter is None:
+        return
+    if inter != "no" and set(S2) != set(S):
+        ctx.label("second:interleaved,different-singularities")
     if cutter.has_features and fd2 is not None and c2.has_features:
         ctx.label("second:both-on-feature-path")
         if set(S2) != set(S):
